@@ -14,7 +14,7 @@ use std::fmt;
 use std::sync::Mutex;
 
 use serde::de::{self, DeserializeSeed, Deserializer, EnumAccess, IgnoredAny, MapAccess, SeqAccess, VariantAccess, Visitor};
-use serde::ser::{self, Serialize, SerializeMap, SerializeSeq, SerializeStruct, SerializeStructVariant, Serializer};
+use serde::ser::{self, Serialize, SerializeMap, SerializeSeq, SerializeStruct, SerializeStructVariant, SerializeTupleVariant, Serializer};
 use serde_json::{json, Value};
 
 #[derive(Debug, Clone)]
@@ -199,6 +199,15 @@ impl<'a> Serialize for Dyn<'a> {
                         }
                         st.end()
                     }
+                    ("ttext", Ty::SList(of)) | ("ttext", Ty::List(of)) => {
+                        // a tuple variant (renamed `$text`): its fields are the items of a space-separated list
+                        let items = v["x"]["a"].as_array().expect("tuple variant value");
+                        let mut tv = s.serialize_tuple_variant("E", idx as u32, intern(&n), items.len())?;
+                        for it in items {
+                            tv.serialize_field(&Dyn(of, it))?;
+                        }
+                        tv.end()
+                    }
                     _ => s.serialize_newtype_variant("E", idx as u32, intern(&n), &Dyn(&var.ty, &v["x"])),
                 }
             }
@@ -381,6 +390,10 @@ impl<'de, 'a> Visitor<'de> for V<'a> {
                         let x = access.struct_variant(intern_list(&names), V(&var.ty))?;
                         Ok(json!({"v": name.as_bytes(), "x": x}))
                     }
+                    ("ttext", _) => {
+                        let x = access.tuple_variant(2, V(&var.ty))?;
+                        Ok(json!({"v": name.as_bytes(), "x": x}))
+                    }
                     _ => {
                         let x = access.newtype_variant_seed(Seed(&var.ty))?;
                         Ok(json!({"v": name.as_bytes(), "x": x}))
@@ -421,6 +434,27 @@ pub fn ser(ty: &Ty, v: &Value, root: &str, o: &SerOpts) -> Result<String, String
     }
     s.expand_empty_elements(o.expand_empty);
     Dyn(ty, v).serialize(s).map_err(|e| format!("se: {e}"))?;
+    Ok(out)
+}
+
+/// The same without an explicit root tag: the name of the struct type becomes the root element (as for a derived type
+/// serialized with `to_string`); `name` is whatever the container is called.
+pub fn ser_named(ty: &Ty, v: &Value, name: &str) -> Result<String, String> {
+    struct Named<'a>(&'a Ty, &'a Value, &'static str);
+    impl<'a> Serialize for Named<'a> {
+        fn serialize<S: Serializer>(&self, s: S) -> Result<S::Ok, S::Error> {
+            let Ty::Struct(fields) = self.0 else { return Err(ser::Error::custom("not a struct")) };
+            let pairs = self.1["o"].as_array().expect("struct value");
+            let mut st = s.serialize_struct(self.2, fields.len())?;
+            for (i, f) in fields.iter().enumerate() {
+                st.serialize_field(intern(&f.jkey), &Dyn(&f.ty, &pairs[i][1]))?;
+            }
+            st.end()
+        }
+    }
+    let mut out = String::new();
+    let s = quick_xml::se::Serializer::new(&mut out);
+    Named(ty, v, intern(name)).serialize(s).map_err(|e| format!("se: {e}"))?;
     Ok(out)
 }
 
